@@ -29,3 +29,29 @@ Theorem C20_cross_script_bucket_registered_under_all_its_scripts : forall keys k
   exists z, find (fun z => intersects z k) (merge_sets keys) = Some z /\ incl k z.
 Proof. exact assignment_total_and_whole. Qed.
 Print Assumptions C20_cross_script_bucket_registered_under_all_its_scripts.
+
+(* ---- registering lookups under a script's languages (featureWriters/ast.addLookupReferences, Fea/LookupRefs.v) ---- *)
+From U2F Require Import Fea.LookupRefs Fea.LookupRefsProofs.
+
+Theorem C20_every_listed_language_reaches_the_lookups : forall lookups s languages l,
+  l = dflt \/ In l languages ->
+  ls_get (read (add_lookup_references lookups (Some s) languages false)) l = Some lookups.
+Proof. exact every_listed_language_reaches_the_lookups. Qed.
+Print Assumptions C20_every_listed_language_reaches_the_lookups.
+
+Theorem C20_without_script_plain_references : forall lookups languages ex,
+  add_lookup_references lookups None languages ex = refs lookups.
+Proof. exact no_script_plain_references. Qed.
+Print Assumptions C20_without_script_plain_references.
+
+Example C20_named_language_listed_first :
+  let trk := [84; 82; 75; 32]%Z in let k := [107]%Z in
+  read (add_lookup_references [k] (Some [108]%Z) [trk; dflt] false) = [(dflt, [k]); (trk, [k])].
+Proof. exact named_language_first. Qed.
+Print Assumptions C20_named_language_listed_first.
+
+Example C20_exclude_dflt :
+  let a := [65]%Z in let b := [66]%Z in let k := [107]%Z in
+  read (add_lookup_references [k] (Some [115]%Z) [a; b] true) = [(a, [k]); (b, [k])].
+Proof. exact exclude_dflt_example. Qed.
+Print Assumptions C20_exclude_dflt.
